@@ -211,8 +211,18 @@ func (r *e1run) compareUnits(prop, where string, track int, got []dunit, want []
 				return false
 			}
 		}
-		if g.ptsOff != w.ptsOff {
-			r.add(prop, "unit-pts-offset", "%s: track %d unit %d has presentation offset %d, want %d", where, track, i, g.ptsOff, w.ptsOff)
+		wantOff, offTol := w.ptsOff, int64(0)
+		if !fmp4v {
+			// MPEG-TS: presentation and decode time are converted to 90 kHz one by one
+			clock := r.clockOf(track)
+			conv := func(x int64) int64 { return (x/clock)*90000 + (x%clock)*90000/clock }
+			wantOff = conv(w.dts+w.ptsOff) - conv(w.dts)
+			if clock != 90000 {
+				offTol = 1
+			}
+		}
+		if d := g.ptsOff - wantOff; d > offTol || d < -offTol {
+			r.add(prop, "unit-pts-offset", "%s: track %d unit %d has presentation offset %d, want %d", where, track, i, g.ptsOff, wantOff)
 			return false
 		}
 	}
@@ -339,7 +349,7 @@ func (r *e1run) opsString() string {
 		if u.NAU > 1 {
 			fmt.Fprintf(&b, "x%d", u.NAU)
 		}
-		if k := r.cfg.Tracks[u.Track].Kind; k == "h264b" || k == "h265b" {
+		if k := r.cfg.Tracks[u.Track].Kind; isH264B(k) || k == "h265b" {
 			fmt.Fprintf(&b, "poc%d", u.POC)
 		}
 	}
